@@ -295,8 +295,7 @@ func (g Gateway) Set(ctx context.Context, in *hydrapb.SetRequest) (*hydrapb.SetR
 				func() {
 
 					// create the treasure and start the guard
-					treasureInterface := swampInterface.CreateTreasure(item.Key)
-					guardID := treasureInterface.StartTreasureGuard(true)
+					treasureInterface, guardID := swampInterface.CreateTreasureGuarded(item.Key)
 					defer treasureInterface.ReleaseTreasureGuard(guardID)
 
 					// set the content type and content
@@ -1883,9 +1882,7 @@ func (g Gateway) Uint32SlicePush(ctx context.Context, in *hydrapb.AddToUint32Sli
 
 		func() {
 
-			treasureObj := swampObj.CreateTreasure(pair.GetKey())
-
-			guardID := treasureObj.StartTreasureGuard(true)
+			treasureObj, guardID := swampObj.CreateTreasureGuarded(pair.GetKey())
 			defer treasureObj.ReleaseTreasureGuard(guardID)
 
 			if err := treasureObj.Uint32SlicePush(pair.GetValues()); err != nil {
@@ -1951,6 +1948,12 @@ func (g Gateway) Uint32SliceDelete(ctx context.Context, in *hydrapb.Uint32SliceD
 			}
 
 			guardID := treasureObj.StartTreasureGuard(true)
+
+			// removed by somebody else while we waited for its guard: nothing to delete from
+			if treasureObj.GetDeletedAt() != 0 {
+				treasureObj.ReleaseTreasureGuard(guardID)
+				return
+			}
 
 			if err := treasureObj.Uint32SliceDelete(pair.GetValues()); err != nil {
 				errorsWhileDelete = append(errorsWhileDelete, err.Error())
